@@ -110,7 +110,8 @@ def check_pack(table, maxsize):
                 if back[u, v] != want:
                     bad.append({"what": "unpack entry", "nh": nh, "ny": ny, "u": u, "v": v})
     # batched paths: homogeneous and mixed
-    for group in ([(1, 2), (1, 2)], [(1, 2), (0, 2)], [(2, 1), (1, 1), (0, 1)]):
+    for group in ([(1, 2), (1, 2)], [(1, 2), (0, 2)], [(2, 1), (1, 1), (0, 1)],
+                  [(1, 4), (2, 0)], [(2, 0), (1, 4)], [(1, 4), (2, 0), (1, 3)], [(2, 1), (1, 5 - 1 - 0)][:1] + [(1, 4)], [(0, 4), (1, 0)]):   # equal packed size, different heavy/hydrogen split
         if any(nh + ny > maxsize for nh, ny in group):
             continue
         Xb = torch.stack([X * (k + 1) for k in range(len(group))])
@@ -152,6 +153,9 @@ def run_values(job):
     mol.verbose = False
     es = Electronic_Structure(params)
     es(mol)
+    if job.get("path") == "xlksa":
+        # XL-BOMD energy at P = converged density with the Krylov / finite electronic temperature branch
+        es(mol, P0=mol.dm.clone(), dm_prop="XL-BOMD", xl_bomd_params={"k": 5, "max_rank": 2, "err_threshold": 0.0, "T_el": float(job.get("T_el", 8000.0))})
     out = {}
     for k, nm in enumerate(names):
         n = len(scf_driver.MOLS[nm][0])
@@ -165,7 +169,7 @@ def run_values(job):
             "e_mo": [float(x) for x in mol.e_mo[k].reshape(-1)[:norb]] if mol.e_mo.dim() == 2 else [],
             "dipole": [float(x) for x in mol.dipole[k]] if mol.dipole is not None else [],
             "pad_force": float(mol.force[k, n:].abs().max()) if mol.force.shape[1] > n else 0.0,
-            "flag": bool(es.notconverged[k]),
+            "flag": bool(es.notconverged[k]) if job.get("path") != "xlksa" else False,
         }
         if mol.cis_energies is not None:
             o["cis"] = [float(x) for x in mol.cis_energies[k]]
